@@ -60,6 +60,9 @@ pub struct Prediction {
     pub any_unformatted: bool,
     pub any_unreadable: bool,
     pub walk_fault: bool,
+    /// a directory that is part of the walk (not pruned as hidden) could not be opened / read:
+    /// an I/O error occurred that check mode must report
+    pub walk_fault_visible: bool,
     pub oracle_unavailable: bool,
     /// the model cannot predict this invocation (e.g. DIR is not a directory): only "paths the
     /// model does not expect to change" are compared
@@ -147,6 +150,7 @@ pub fn predict(tree: &Tree, inv: &Inv, fired: &Fired, oracle: &mut Oracle) -> Pr
         any_unformatted: false,
         any_unreadable: false,
         walk_fault: !fired.walk_failed.is_empty(),
+        walk_fault_visible: false,
         oracle_unavailable: false,
         unmodelled: None,
         is_check: inv.is_check(),
@@ -267,6 +271,19 @@ pub fn predict(tree: &Tree, inv: &Inv, fired: &Fired, oracle: &mut Oracle) -> Pr
                 // the statements are silent about a DIR that is missing or not a directory
                 p.unmodelled = Some("DIR is not a directory");
                 return p;
+            }
+            for d in &fired.walk_failed {
+                let pruned = if *d == dir_key {
+                    false
+                } else if is_below(d, &dir_key) {
+                    let rel = if dir_key == "." { d.as_str() } else { &d[dir_key.len() + 1..] };
+                    rel.split('/').any(|c| c.starts_with('.'))
+                } else {
+                    true // outside the walk altogether
+                };
+                if !pruned {
+                    p.walk_fault_visible = true;
+                }
             }
             for key in eligible(tree, &dir_key) {
                 let Some(Node::File(b)) = tree.get(&key) else { continue };
@@ -456,24 +473,34 @@ pub fn check(
     }
 
     // ---- exit status
-    if pred.level == Level::Full && !pred.walk_fault {
+    if pred.level == Level::Full {
+        // (inputs below a failed directory read are not counted in any_unformatted/any_unreadable)
         let io_error = pred.any_unreadable || unrecovered_write_failure;
         match &inv.shape {
             Shape::Files { mode: Mode::InplaceCheck, .. } => {}
             _ if check_mode => {
-                let want = if pred.any_unformatted || io_error { 1 } else { 0 };
-                if out.exit != Some(want) {
-                    v.push(viol(
-                        &["C14"],
-                        "I14.3-exit",
-                        step,
-                        format!(
-                            "check mode exit status {:?}, expected {} (inputs: {})",
-                            out.exit,
-                            want,
-                            summarise_inputs(pred)
-                        ),
-                    ));
+                let want: Option<i32> = if pred.any_unformatted || io_error || pred.walk_fault_visible {
+                    Some(1)
+                } else if pred.walk_fault {
+                    None // only a pruned (hidden) directory failed: the statement does not decide
+                } else {
+                    Some(0)
+                };
+                if let Some(want) = want {
+                    if out.exit != Some(want) {
+                        v.push(viol(
+                            &["C14"],
+                            "I14.3-exit",
+                            step,
+                            format!(
+                                "check mode exit status {:?}, expected {} (inputs: {}{})",
+                                out.exit,
+                                want,
+                                summarise_inputs(pred),
+                                if pred.walk_fault_visible { "; a walked directory could not be read: an I/O error occurred" } else { "" }
+                            ),
+                        ));
+                    }
                 }
             }
             _ if write_mode => {
